@@ -171,8 +171,12 @@ func (tw *TimingWheel) drainAll(fn func(key, value any)) {
 			slot.Remove(e)
 			e = next
 			if !task.removed {
+				// the timer is delivered by this drain: forget it like a fired timer, and
+				// deliver what it holds now, not what a later SetTimer writes into the entry
+				tw.timers.Del(task.key)
+				key, value := task.key, task.value
 				runner.Schedule(func() {
-					fn(task.key, task.value)
+					fn(key, value)
 				})
 			}
 		}
